@@ -35,3 +35,18 @@ pub open spec fn pos_monotone(text: Seq<char>) -> bool {
     ensures
         r.start == pos_of(range.start, text@) && r.end == pos_of(range.end, text@), //# as_pos_range::componentwise
 //@end
+/// the byte offset LSP assigns to a position in `text` — defined by the executable reference in kani/positions
+pub uninterp spec fn idx_of(p: Position, text: Seq<char>) -> usize;
+//~assume document.rs::get_insertion_index(p, text) == idx_of(p, text): abstract in Verus; checked against the LSP reference by Kani unit `positions` (bounded)
+//@extract lsp4spl/src/document.rs :: fn get_insertion_index
+//@ ret i
+//@ sig
+    ensures i == idx_of(*position, text@),
+//@ assume_body fn get_insertion_index
+//@end
+//@extract lsp4spl/src/document.rs :: fn as_index_range
+//@ ret r
+//@ sig
+    ensures
+        r.start == idx_of(pos_range.start, text@) && r.end == idx_of(pos_range.end, text@), //# as_index_range::componentwise
+//@end
